@@ -223,7 +223,7 @@ def c18(tier):
 
 def c01(tier):
     jobs = tree_jobs(tier)[:4]
-    conv = [(3, 2), (3, 3)] if tier == "quick" else [(3, 2), (3, 3), (3, 4), (6, 3)]
+    conv = [(3, 2), (3, 3)] if tier == "quick" else [(3, 2), (3, 3), (2, 4), (6, 3)]
     for c in conv:
         jobs.append(Job("h_c18::converge", c, dict(S2), budget_s=6000, validate=30))
     jobs.append(Job("h_c02::delivery", (0, 6, 0), dict(S2), budget_s=4000, validate=20))
@@ -231,7 +231,8 @@ def c01(tier):
     return dict(jobs=jobs, bounds={"concurrent creations": "both replicas submit one of k documents with equal element contents, so that identical revisions occur in two different blocks",
                                    "tree level": TREE_BOUNDS,
                                    "melda level [k orders, operations]": [list(c) for c in conv],
-                                   "operations": "symbolic sequence over {a.update, b.update, a.commit, b.commit, a.pull(b), b.pull(a), a.unstage} after a shared base; then unstage, exchange until nothing new, "
+                                   "operations": "symbolic sequence over {a.update, b.update, a.commit (+ reopen comparison), b.commit, a.pull(b), b.pull(a), a.unstage, a.delete_object, a.stage_full_snapshot, "
+                                                 "a.resolve_as(first conflict, winner), a.reload} after a shared base; then unstage, exchange until nothing new, "
                                                  "compare a, b, a replica fed by plain file copy in reverse listing order with refreshes at symbolic points, and a replica opened by one reload",
                                    "file-copy route": "all delivery orders of a 2-commit history (job shared with C02)"},
                 assumptions=TREE_ASSUME + S2_ASSUME + ["two writers; time travel inside the history is covered by C14, resolutions by C07"],
